@@ -134,6 +134,7 @@ PROPS["C03"] = dict(
     subs=[
         R("C03.forgery", "ke", "TestC03Forgery", 10000, 960000, steps=30),
         P("C03.forgery_exhaustive", "ke", "TestC03Exhaustive", qto=600, tto=3000),
+        R("C03.channel_unproven_key", "kechan", "TestC03ChannelUnprovenKey", 600, 30000, shrink=8, quick=dict(shards=2, timeout=600)),
     ],
 )
 
